@@ -10,7 +10,14 @@ package monitoring2
 
 //@ ghost var c40Quiescent bool
 
-// TRUSTED (interface, any engine).
+// TRUSTED ASSUMPTION, KNOWN TO BE FALSE FOR timing.SerialEngine: "Engine.Pause() returns with no event handler running"
+// (that statement is property C05, not verified here). SerialEngine.Pause only stores paused=1 under pauseMu and returns; the
+// engine goroutine tests the flag between two events, so the handler of the CURRENT event may still be running when Pause
+// returns. Observed on real code (go test -race, /verif/replay/monitoring2_c40_race_test.go.tmpl, TestC40ComponentDetailsWhileRunning):
+// GET /api/component/Comp - which does call pauseForInspection() first - races: goseth serializer.go:197 (read of the
+// component's field, via monitor.go:519) against the running handler's write, dispatched from serialengine.go:144.
+// Hence every obligation discharged below through this contract (C40.perm.serialize in listComponentDetails, the lock
+// invariant enginePaused ==> c40Quiescent) is a statement about engines whose Pause really quiesces, NOT about SerialEngine.
 //@ iface timing.Engine.Pause()
 //@   trusted
 //@   ensures c40Quiescent
